@@ -642,7 +642,44 @@ func splitOps(s string, known map[string]readOp) []string {
 // ---------------------------------------------------------------------------------------------
 // Part B: free-running race pass (this code runs in the -race twin binary)
 
+// runCold: the process's very first fast-path calls on a type (and on the nested types reached through it) are
+// made by concurrent goroutines. Whatever the generated code initialises lazily per type is initialised here under
+// the race detector. One fresh process per type; the value is built through struct reflection only.
+func runCold(h *hz.H, name string) {
+	all := append(append([]readOp(nil), readOps...), directOps...)
+	for _, md := range targetTypes() {
+		if string(md.FullName()) != name {
+			continue
+		}
+		d := richValue(md, 0)
+		shared := enum.BuildGo(d)
+		twins := make([]proto.Message, len(all))
+		for k := range all {
+			twins[k] = enum.BuildGo(d)
+		}
+		var wg sync.WaitGroup
+		start := make(chan struct{})
+		for k := range all {
+			k := k
+			wg.Add(1)
+			go func() {
+				defer wg.Done()
+				<-start
+				hz.Catch(func() { all[k].f(shared, twins[k]) })
+			}()
+		}
+		close(start)
+		wg.Wait()
+		h.Eval(true, hz.Hash("C11cold", name))
+		h.Eval(true, hz.Hash("C11cold2", name))
+	}
+}
+
 func runRacePass(h *hz.H) {
+	if name := os.Getenv("VERIF_COLD_TYPE"); name != "" {
+		runCold(h, name)
+		return
+	}
 	types := targetTypes()
 	all := append(append([]readOp(nil), readOps...), directOps...)
 	reps := 6
@@ -754,6 +791,21 @@ func mergeRacePass(h *hz.H, only *c11case) {
 	for _, v := range r.Violations {
 		h.Violate(v.Key, v.What, v.Case)
 	}
+	// cold starts: one fresh process per type whose first fast-path calls are concurrent
+	cold := 0
+	for _, md := range targetTypes() {
+		crep := filepath.Join(dir, fmt.Sprintf("race-cold-%d-%d.json", os.Getpid(), cold))
+		c := exec.Command(bin, "-prop", "C11", "-tier", h.Tier, "-report", crep)
+		c.Env = append(os.Environ(), "GORACE=halt_on_error=0 history_size=3 log_path="+logBase, "VERIF_COLD_TYPE="+string(md.FullName()))
+		cout, _ := c.CombinedOutput()
+		if _, err := os.Stat(crep); err != nil {
+			h.InternalError("cold-start race process wrote no report: " + string(cout[max(0, len(cout)-400):]))
+			return
+		}
+		cold++
+		h.EvalN(1)
+	}
+	h.Rep.Bounds["partB_cold_start_processes"] = cold
 	// race reports
 	logs, _ := filepath.Glob(logBase + "*")
 	nReports := 0
